@@ -19,7 +19,8 @@ from asphalt.core import (  # noqa: E402
 )
 
 ACTIONS = ["'cancel'", "None (task ends by itself)", "sync callable", "async callable", "sync callable that raises",
-           "async callable that raises when awaited", "callable object (class with __call__)"]
+           "async callable that raises when awaited", "callable object (class with __call__)",
+           "unhashable callable object (a dataclass with __call__: __eq__ without __hash__)"]
 LATER_ACTIONS = ["'cancel'", "sync callable"]
 
 
@@ -29,7 +30,7 @@ def cfg(tier):
 
 def params(tier):
     D, L = cfg(tier)
-    ps = [P("n", 0, 2), P("nested", 0, 1), P("act", 0, 6), P("via", 0, 2), P("cleanup", 0, 1), P("k0", 0, 2), P("k1", 0, 2), P("k2", 0, 2), P("act2", 0, 1)]
+    ps = [P("n", 0, 2), P("nested", 0, 1), P("act", 0, 7), P("selfend", 0, 1), P("via", 0, 2), P("cleanup", 0, 1), P("k0", 0, 2), P("k1", 0, 2), P("k2", 0, 2), P("act2", 0, 1)]
     for j in range(D):
         ps += [P(f"gap{j}", 0, L), P(f"arm{j}", 0, 3)]
     return ps
@@ -46,7 +47,9 @@ def fn(a, tier):
     # 0 resource with teardown callback, 1 service task, 2 resource whose teardown callback starts a service task DURING teardown
     kinds = [pick(a[f"k{i}"], 3) for i in range(n)]
     first_task = next((i for i, k in enumerate(kinds) if k == 1), None)
-    act = pick(a["act"], 7) if first_task is not None else 0
+    act = pick(a["act"], 8) if first_task is not None else 0
+    # the first task has already ended by itself (with its context) when the owner is torn down: its teardown action is still due exactly once
+    selfend = pick(a["selfend"], 2) if first_task is not None else 0
     cleanup = 2 * pick(a["cleanup"], 2) if first_task is not None else 0
     act2 = pick(a["act2"], 2) if kinds.count(1) > 1 else 0
     tape = DeviationTape([(a[f"gap{j}"], a[f"arm{j}"]) for j in range(D)], L)
@@ -77,7 +80,9 @@ def fn(a, tier):
 
             add_teardown_callback(own_teardown)
             try:
-                if action == 1:
+                if selfend and i == first_task:
+                    pass  # ends by itself at once
+                elif action == 1:
                     await anyio.sleep(3)  # ends by itself
                 else:
                     await stop.wait()
@@ -120,7 +125,16 @@ def fn(a, tier):
             def __call__(self):
                 sync_stop()
 
-        td = ["cancel", None, sync_stop, async_stop, sync_raise, async_raise, Stopper()][action]
+        from dataclasses import dataclass
+
+        @dataclass
+        class Shutdown:  # eq=True without frozen: instances are unhashable
+            reason: str
+
+            def __call__(self):
+                sync_stop()
+
+        td = ["cancel", None, sync_stop, async_stop, sync_raise, async_raise, Stopper(), Shutdown("owner left")][action]
         return task, td
 
     async def block():
@@ -171,6 +185,9 @@ def fn(a, tier):
             else:
                 await register_items()
             await anyio.sleep(0)
+            if selfend:
+                for _ in range(4):
+                    await anyio.sleep(0)
             log.append(("leaving",))
         log.append(("left",))
         k = symsched.kernel()
@@ -186,7 +203,7 @@ def fn(a, tier):
     _, exc, k = run(main, chooser=tape)
     summary = {"items": ["resource+teardown cb" if kd == 0 else "resource whose teardown cb starts a service task" if kd == 2
                          else f"service task, teardown_action={ACTIONS[action_for(i)]}" for i, kd in enumerate(kinds)],
-               "cleanup_checkpoints_after_stop": cleanup, "context": "nested" if nested else "root",
+               "first_task_ends_by_itself_before_the_teardown": bool(selfend), "cleanup_checkpoints_after_stop": cleanup, "context": "nested" if nested else "root",
                "registered": ["directly in the owning context (shortcuts)", "inside a component's start()", "through the owner's methods while a nested context is current"][via], "schedule": tape.taken}
     if exc is not None:
         return FAIL(f"raised:{type(flatten(exc)[0]).__name__}:action={ACTIONS[act]}", f"{exc!r} log={log}", summary)
@@ -206,7 +223,8 @@ def fn(a, tier):
             continue
         action = action_for(i)
         end, closed = pos.get(("task_end", i)), pos.get(("task_ctx_closed", i))
-        if action != 1 and end is not None and end < pos[("leaving",)]:
+        ended_by_itself = bool(selfend) and i == first_task
+        if action != 1 and not ended_by_itself and end is not None and end < pos[("leaving",)]:
             return FAIL(f"task-stopped-before-its-owner-was-left:action={ACTIONS[action]}:via={via}", log, summary)
         if end is None or closed is None or end > pos[("left",)] or closed > pos[("left",)]:
             return FAIL(f"task-or-its-context-not-finished-when-block-left:action={ACTIONS[action]}", log, summary)
@@ -215,16 +233,16 @@ def fn(a, tier):
                 if j < i and not (pos[("res_td", j)] > end and pos[("res_td", j)] > closed):
                     return FAIL(f"earlier-resource-torn-down-before-task-finished:action={ACTIONS[action]}:cleanup={cleanup}", log, summary)
                 if j > i and not pos[("res_td", j)] < min(end, closed):
-                    if action != 1:  # a task ending by itself may end any time
+                    if action != 1 and not ended_by_itself:  # a task ending by itself may end any time
                         return FAIL("later-resource-torn-down-after-task", log, summary)
             if kinds[j] == 1 and j < i:
-                if not (pos[("task_end", j)] > end and pos.get(("task_ctx_closed", j), 0) > closed) and action_for(j) != 1 and action != 1:
+                if not (pos[("task_end", j)] > end and pos.get(("task_ctx_closed", j), 0) > closed) and action_for(j) != 1 and action != 1 and not (selfend and j == first_task):
                     return FAIL("tasks-not-stopped-in-reverse-order", log, summary)
         want_calls = 1 if action >= 2 else 0
         if calls[i] != want_calls:
             return FAIL(f"teardown-action-called-{calls[i]}-times:action={ACTIONS[action]}", log, summary)
         saw_cancel = ("task_saw", i, "cancel") in pos
-        want_cancel = action in (0, 4, 5)
+        want_cancel = action in (0, 4, 5) and not ended_by_itself
         if saw_cancel != want_cancel:
             return FAIL(f"task-cancelled={saw_cancel}-expected={want_cancel}:action={ACTIONS[action]}", log, summary)
         snap = info[("snapshot", i)]
@@ -251,7 +269,7 @@ H = Harness(
     cube=lambda tier: 4,
     title="service tasks and resources with teardown callbacks registered in any order; every teardown_action kind",
     bound_text=lambda tier: "1-3 items, each a resource with a teardown callback, a service task, or a resource whose teardown callback starts a service task during teardown; first task's teardown_action in {"
-    + "; ".join(ACTIONS) + "}, later tasks {'cancel', sync callable}; task needs 0 or 2 (shielded) checkpoints of clean-up and has an async teardown "
+    + "; ".join(ACTIONS) + "}, later tasks {'cancel', sync callable}; the first task runs until stopped or has already ended by itself when the owner is left; task needs 0 or 2 (shielded) checkpoints of clean-up and has an async teardown "
     "callback in its own context; root / nested owner; items registered by the shortcuts, from inside a component's start() (ComponentContext wrappers) or through the owner's methods while another context is current; FIFO schedule with "
     + ("one deviation within the first 8 decisions" if tier == "quick" else "two deviations"),
     oracle="task end AND its own context's teardown precede every callback registered before the task and follow those registered after; "
